@@ -171,6 +171,13 @@ def _child_run(world, program, wfd, verbose=False):
             faulthandler.enable(all_threads=True)
         except Exception:
             pass
+        try:
+            # a run-away library loop must end in MemoryError, not in taking the machine down
+            import resource
+            lim = int(os.environ.get("QSIM_CHILD_AS_GB", "4")) * (1 << 30)
+            resource.setrlimit(resource.RLIMIT_AS, (lim, lim))
+        except Exception:
+            pass
         if not verbose:
             dn = os.open(os.devnull, os.O_WRONLY)
             os.dup2(dn, 1)
